@@ -84,6 +84,8 @@ func runC04(c *Config, r *Report) {
 	c04R16(ic, r)
 	c04R17(ic, r)
 	c04R19(ic, r)
+	c04R21(ic, r)
+	c04R22(ic, r)
 	c04R20(ic, r, "R04.20")
 	copiersAlwaysCopy(ic, r, "R04.18")
 	{
@@ -1385,5 +1387,151 @@ func c04R20(ic *IC, r *Report, rule string) {
 	}
 	if n < 5 || nDerived == 0 {
 		r.Errorf("%s: %d interface wrappers found in run-time closures, %d made from an operand (the generator of interface conversions expected)", rule, n, nDerived)
+	}
+}
+
+func init() {
+	ruleText["R04.21"] = "the append generator spreads its last operand only for append(s, t...): every path to the slice-appending generator (appendSlice) in _append tests the ellipsis of the call (node.action against aCallSlice) - the operand types cannot tell append(is, x) from append(is, x...) when x is itself assignable to the element type ([]interface{} into []interface{})"
+}
+
+// c04R21: found through the round-6 report on C04 (E07). _append chose appendSlice from the
+// operand types: append(is, x) with is, x []interface{} appended the elements of x.
+func c04R21(ic *IC, r *Report) {
+	info := ic.Info
+	fi := ic.fn(r, "_append")
+	if fi == nil {
+		return
+	}
+	calls := callsIn(info, fi.Decl.Body, false, "interp.appendSlice")
+	if len(calls) == 0 {
+		r.Errorf("R04.21: _append never reaches appendSlice")
+		return
+	}
+	for i, c := range calls {
+		ok := false
+		conds := []string{}
+		for _, g := range pathGuards(fi.Decl.Body, c) {
+			conds = append(conds, types.ExprString(g.cond))
+			if !g.want {
+				continue
+			}
+			// the condition implies the ellipsis test: it is false as soon as that test is
+			isEllipsis := func(e ast.Expr) bool {
+				be, isB := unparen(e).(*ast.BinaryExpr)
+				if !isB || be.Op != token.EQL {
+					return false
+				}
+				for _, pair := range [][2]ast.Expr{{be.X, be.Y}, {be.Y, be.X}} {
+					if v := selField(info, pair[0]); v != nil && v.Name() == "action" {
+						if id := identOf(pair[1]); id != nil {
+							if cst, isC := info.Uses[id].(*types.Const); isC && cst.Name() == "aCallSlice" {
+								return true
+							}
+						}
+					}
+				}
+				return false
+			}
+			if evalCond(g.cond, func(e ast.Expr) int {
+				if isEllipsis(e) {
+					return triFalse
+				}
+				return triUnknown
+			}) == triFalse {
+				ok = true
+			}
+		}
+		r.Check(ok, "R04.21", fmt.Sprintf("_append/slice-form#%d/decided-by-the-ellipsis", i+1), ic.pos(c.Pos()), "appendSlice is reached under node.action == aCallSlice",
+			"_append hands the call to appendSlice under ["+strings.Join(conds, "; ")+"], which does not test the ellipsis of the call: when the last operand is a slice assignable to the element type, append(is, x) appends the elements of x instead of x itself (is, x []interface{}: len 2 instead of 1)")
+	}
+}
+
+func init() {
+	ruleText["R04.22"] = "the temporaries of a multiple assignment have the type of the values they save: in the multiple-assignment closures of assign every temporary is reflect.New(v.Type()).Elem() for the evaluated source v (or a copier call), not a type computed when the closure is generated from the static type of the source - that type is nil for the untyped nil and the wrapper type for every interface, the empty one included"
+}
+
+// c04R22: found through the round-6 report on C04 (E08, E09). s, t[0] = nil, s panicked
+// (reflect.New(nil)) and i, j = j, i with i, j interface{} panicked (a wrapper-typed temporary
+// receiving a plain interface value).
+func c04R22(ic *IC, r *Report) {
+	info := ic.Info
+	fi := ic.fn(r, "assign")
+	if fi == nil {
+		return
+	}
+	cp := copiers(ic)
+	n := 0
+	for k, fl := range (&c02ctx{ic: ic}).closuresOf(fi) {
+		// temporaries: elements of a local []reflect.Value made in the closure
+		temps := map[types.Object]bool{}
+		ast.Inspect(fl.Body, func(q ast.Node) bool {
+			as, ok := q.(*ast.AssignStmt)
+			if !ok || as.Tok != token.DEFINE || len(as.Lhs) != 1 || len(as.Rhs) != 1 {
+				return true
+			}
+			if c, ok := unparen(as.Rhs[0]).(*ast.CallExpr); ok {
+				if id := identOf(c.Fun); id != nil && id.Name == "make" && types.TypeString(info.TypeOf(as.Rhs[0]), nil) == "[]reflect.Value" {
+					temps[info.ObjectOf(as.Lhs[0].(*ast.Ident))] = true
+				}
+			}
+			return true
+		})
+		if len(temps) == 0 {
+			continue
+		}
+		ast.Inspect(fl.Body, func(q ast.Node) bool {
+			as, ok := q.(*ast.AssignStmt)
+			if !ok || len(as.Lhs) != 1 || len(as.Rhs) != 1 {
+				return true
+			}
+			ix, ok := unparen(as.Lhs[0]).(*ast.IndexExpr)
+			if !ok {
+				return true
+			}
+			if id := identOf(ix.X); id == nil || !temps[info.ObjectOf(id)] {
+				return true
+			}
+			c, ok := unparen(as.Rhs[0]).(*ast.CallExpr)
+			if !ok {
+				return true
+			}
+			if g, isF := calleeOf(info, c).(*types.Func); isF && cp[g] {
+				n++
+				r.Pass("R04.22", fmt.Sprintf("assign/closure#%d/temporary#%d/typed-by-the-value", k+1, n), ic.pos(as.Pos()), "the temporary is made by the copier")
+				return true
+			}
+			var scope ast.Node = c
+			if hid := identOf(c.Fun); hid != nil {
+				// a local helper of the generator making the temporary: look at its body
+				ast.Inspect(fi.Decl.Body, func(z ast.Node) bool {
+					if has, ok := z.(*ast.AssignStmt); ok && len(has.Lhs) == 1 && len(has.Rhs) == 1 {
+						if lid := identOf(has.Lhs[0]); lid != nil && info.ObjectOf(lid) == info.ObjectOf(hid) {
+							if lit, ok := unparen(has.Rhs[0]).(*ast.FuncLit); ok {
+								scope = lit.Body
+							}
+						}
+					}
+					return true
+				})
+			} else if !isCallTo(info, c, "reflect.Value.Elem") {
+				return true
+			}
+			news := callsIn(info, scope, true, "reflect.New")
+			if len(news) != 1 || len(news[0].Args) != 1 {
+				return true
+			}
+			n++
+			arg := unparen(news[0].Args[0])
+			okT := false
+			if tc, ok := arg.(*ast.CallExpr); ok && isCallTo(info, tc, "reflect.Value.Type") {
+				okT = true
+			}
+			r.Check(okT, "R04.22", fmt.Sprintf("assign/closure#%d/temporary#%d/typed-by-the-value", k+1, n), ic.pos(as.Pos()), "the temporary is reflect.New(v.Type()).Elem()",
+				"the multiple-assignment closure of assign creates its temporary with reflect.New("+types.ExprString(arg)+"), a type fixed when the closure is generated: the static type of the source is nil for an untyped nil (s, t[0] = nil, s panics in reflect.New) and the wrapper type for every interface (i, j = j, i with i, j interface{} panics in Set)")
+			return true
+		})
+	}
+	if n < 2 {
+		r.Errorf("R04.22: only %d temporaries found in the multiple-assignment closures of assign", n)
 	}
 }
